@@ -38,6 +38,28 @@ sys.path.insert(0, REPO)
 import numpy as np
 from t2data import *      # t2data, t2grid, t2block, t2connection, rocktype, mulgrid
 
+import signal
+
+
+class HarnessTimeout(BaseException):
+    pass
+
+
+def _on_alarm(signum, frame):
+    raise HarnessTimeout()
+
+
+@contextlib.contextmanager
+def time_limit(seconds):
+    """A library call that does not return within `seconds` is a failure ('timeout ...')."""
+    signal.signal(signal.SIGALRM, _on_alarm)
+    signal.setitimer(signal.ITIMER_REAL, seconds)
+    try:
+        yield
+    finally:
+        signal.setitimer(signal.ITIMER_REAL, 0)
+
+
 ROCKNAMES = ['dfalt', 'rock1', 'rock2']
 
 # ----------------------------------------------------------------------------------------------
@@ -285,8 +307,9 @@ class Stats(object):
 
     def failure(self, key, what, inp, size):
         old = self.fail.get(key)
-        if old is None or old[0] > size:
-            self.fail[key] = (size, {'key': key, 'what': what[:900], 'input': inp})
+        rank = (size, json.dumps(inp, sort_keys=True, default=str))     # smallest input, ties broken deterministically
+        if old is None or old[0] > rank:
+            self.fail[key] = (rank, {'key': key, 'what': what[:900], 'input': inp})
 
     def done(self):
         self.cpu += time.process_time()
@@ -370,30 +393,35 @@ def run_case(desc, ops, st, where):
         cat = k if k != 'rename' else 'rename-' + op[2]
         okey = LazyKey(op, cur_names, cur_conns)
         try:
-            if k == 'reorder':
-                g.reorder(list(op[1]) if op[1] is not None else None, [tuple(p) for p in op[2]] if op[2] is not None else None)
-            elif k == 'reorder-geo':
-                g.reorder(geo=geo)
-            elif k == 'rename':
-                m = dict(op[1])
-                if op[2] == 'grid':
-                    g.rename_blocks(m)
-                else:
-                    if _dat[0] is None:
-                        _dat[0] = t2data()
-                    _dat[0].grid = g
-                    if op[2] == 'dat':
-                        _dat[0].rename_blocks(m)
+            with time_limit(120):
+                if k == 'reorder':
+                    g.reorder(list(op[1]) if op[1] is not None else None, [tuple(p) for p in op[2]] if op[2] is not None else None)
+                elif k == 'reorder-geo':
+                    g.reorder(geo=geo)
+                elif k == 'rename':
+                    m = dict(op[1])
+                    if op[2] == 'grid':
+                        g.rename_blocks(m)
                     else:
-                        _dat[0].rename_blocks(dict((v, k_) for k_, v in m.items()), invert=True)
-            elif k == 'fileio':
-                dat = t2data()
-                dat.grid = g
-                path = os.path.join(_tmpdir[0], 'c09_%d.dat' % os.getpid())
-                dat.write(path)
-                g = t2data(path).grid
-                os.remove(path)
-                tol = FILE_TOL
+                        if _dat[0] is None:
+                            _dat[0] = t2data()
+                        _dat[0].grid = g
+                        if op[2] == 'dat':
+                            _dat[0].rename_blocks(m)
+                        else:
+                            _dat[0].rename_blocks(dict((v, k_) for k_, v in m.items()), invert=True)
+                elif k == 'fileio':
+                    dat = t2data()
+                    dat.grid = g
+                    path = os.path.join(_tmpdir[0], 'c09_%d.dat' % os.getpid())
+                    dat.write(path)
+                    g = t2data(path).grid
+                    os.remove(path)
+                    tol = FILE_TOL
+        except HarnessTimeout:
+            st.count(cat + '-signature')
+            st.failure('timeout %s %s %s' % (cat, tag(desc), okey), 'the operation did not return within 120 s', inp, size)
+            return
         except Exception as e:
             st.count(cat + '-signature')
             st.failure('%s:exception %s %s' % (cat, tag(desc), okey), 'raised %s: %s' % (type(e).__name__, e), inp, size)
@@ -723,8 +751,11 @@ def run_minc(case, st):
         kw['matrix_blockname'] = custom_matrix_name
     st.count('minc-call')
     try:
-        with contextlib.redirect_stdout(io.StringIO()):
+        with contextlib.redirect_stdout(io.StringIO()), time_limit(60):
             bi = g.minc(list(vf), spacing, nfp, **kw)
+    except HarnessTimeout:
+        st.failure('timeout minc %s' % t, 'minc did not return within 60 s', inp, size)
+        return
     except Exception as e:
         st.failure('minc:exception %s' % t, 'minc raised %s: %s' % (type(e).__name__, e), inp, size)
         return
@@ -866,8 +897,11 @@ def run_embed(case, st):
     expect_none = clash or subvol >= hostvol
     st.count('embed-none')
     try:
-        with contextlib.redirect_stdout(io.StringIO()):
+        with contextlib.redirect_stdout(io.StringIO()), time_limit(60):
             res = g.embed(s, con)
+    except HarnessTimeout:
+        st.failure('timeout embed %s' % t, 'embed did not return within 60 s', inp, size)
+        return
     except Exception as e:
         st.failure('embed:exception %s' % t, 'embed raised %s: %s' % (type(e).__name__, e), inp, size)
         return
@@ -968,11 +1002,11 @@ def main():
         with mp.Pool(nproc) as pool:
             for st, sample in pool.imap_unordered(worker, tasks):
                 total.merge(st)
-                if sample and len([s for s in samples if s['part'] == sample['part']]) < 2:
+                if sample:
                     samples.append(sample)
     finally:
         shutil.rmtree(tmp, ignore_errors=True)
-    allf = sorted((f for s, f in sorted(total.fail.values(), key=lambda x: (x[0], x[1]['key']))), key=lambda f: 0)
+    allf = [f for r, f in sorted(total.fail.values(), key=lambda x: (x[0][0], x[1]['key']))]
     bycat = {}
     for f in allf:
         bycat.setdefault(f['key'].split(' ')[0], []).append(f)
@@ -983,8 +1017,9 @@ def main():
                 out.append(bycat[cat][rank])
         rank += 1
     samples.sort(key=lambda s: json.dumps(s, sort_keys=True, default=str))
+    samples = [x for part in 'BCD' for x in [y for y in samples if y['part'] == part][:2]]
     samples.append({'exhaustive_small_cases': nA, 'random_compositions': nB, 'minc_cases': nC, 'embed_cases': nD,
-                    'per_contract': total.per_contract, 'worker_cpu_seconds': round(total.cpu, 1),
+                    'per_contract': dict(sorted(total.per_contract.items())), 'worker_cpu_seconds': round(total.cpu, 1),
                     'failure_categories': dict((c, len(v)) for c, v in sorted(bycat.items()))})
     print('@@JSON@@' + json.dumps({'evaluations': total.evaluations, 'distinct': total.distinct, 'failures': out,
                                    'nfailures': len(allf), 'samples': samples, 'seconds': round(time.time() - t0, 2)}, default=str))
